@@ -428,6 +428,20 @@ func ruleC06Outermost(c *Ctx) {
 			}
 		}
 	}
+	// ... and all of it: the entry of the schema that holds the $dynamicRef is part of its own dynamic scope
+	if elem != nil {
+		if ld, ok := elem.(*ssa.UnOp); ok {
+			if ia, ok := ld.X.(*ssa.IndexAddr); ok && c.mentionsField(ia.X, "state.stack", 3) {
+				partial := ""
+				for _, v := range append(traceSourcesKeepSlices(ia.X), ia.X) {
+					if sl, ok := v.(*ssa.Slice); ok && (sl.Low != nil || sl.High != nil) {
+						partial = c.pos(sl)
+					}
+				}
+				c.R.Check(partial == "", rule, "search:whole-stack", c.pos(lk), "the search visits every entry of the stack, the current schema's included", "the dynamic-scope search runs over a part of the stack only (slice expression at "+partial+"): when the resource that holds the $dynamicRef is itself the outermost one declaring the anchor (it was entered by $ref), the search finds nothing and the lexical target is used instead")
+			}
+		}
+	}
 	c.R.Check(forward, rule, "search:from-outermost", c.pos(lk), "the search visits the stack from index 0 upwards (outermost scope first)", "the dynamic-scope search does not start at the outermost stack entry and move inwards: the innermost matching resource would win")
 	// the hit requires ok && dynamic, and leaves the loop
 	var hit ssa.Instruction
@@ -563,4 +577,36 @@ func ruleC06Fallback(c *Ctx) {
 		}
 	}
 	c.R.Check(okStore, rule, "fallback:stored-with-anchor", "", "the lexically resolved schema is remembered together with the anchor name (same resolver call, same branch)", "resolution does not remember the lexically resolved schema of a dynamically behaving $dynamicRef next to its anchor name")
+}
+
+// traceSourcesKeepSlices: the values v comes from through phis and cells, slice expressions included in the result.
+func traceSourcesKeepSlices(v ssa.Value) []ssa.Value {
+	var out []ssa.Value
+	seen := map[ssa.Value]bool{}
+	var walk func(v ssa.Value, depth int)
+	walk = func(v ssa.Value, depth int) {
+		if v == nil || seen[v] || depth == 0 {
+			return
+		}
+		seen[v] = true
+		out = append(out, v)
+		switch x := v.(type) {
+		case *ssa.Slice:
+			walk(x.X, depth-1)
+		case *ssa.Phi:
+			for _, e := range x.Edges {
+				walk(e, depth-1)
+			}
+		case *ssa.UnOp:
+			if x.Op == token.MUL {
+				if cell := resolveCell(x.X); cell != nil {
+					for _, sv := range cellStores(cell) {
+						walk(sv, depth-1)
+					}
+				}
+			}
+		}
+	}
+	walk(v, 6)
+	return out
 }
